@@ -229,6 +229,10 @@ def modify_rules(ctx, m, with_typestate=True):
     ctx.check(("Active", "Active", True) in rel and ("Active", "Filled", False) in rel and all(a == b for (a, b, _i) in rel if a != "Active"),
               "replace", "exit-states", ctx.loc(f), "an Active order leaves modify_order queued+Active or unqueued+Filled; other statuses unchanged",
               "modify_order exit relation: %s" % sorted(rel))
+    # "executing immediately against the opposite side if it now crosses": every re-insertion is preceded by the opposite side's
+    # matching loop on every path with trading on - whatever was or was not changed by the request (shared with C01/C02/C13)
+    if with_typestate:
+        c02.never_crossed(ctx, m, rule="replace-rematch")
     # K1/K3 of the re-queue key: C01's key rules on the whole-operation view of modify_order
     from .c01 import key_write_rules
     n_key = key_write_rules(ctx, m, [f], k1="replace", k3="replace")
